@@ -94,6 +94,30 @@ function familyC (tier, opts = {}) {
       }
     }
   }
+  if (tier === 'thorough') {
+    // depth 3: representative outer and middle schemas (one per rewriting path), every schema innermost
+    const REP = ['@X@ + @Y@', 'x += @Y@', 'g().p += @Y@', '`p${@X@}q${@Y@}r`', 'a.concat(@X@, @Y@)', '@X@.concat(@Y@)', '@X@?.trim()', 'o?.q.concat(@X@)', 'X.prototype.concat.call(@X@, @Y@)', 'X.prototype.concat.apply(a, [@X@, @Y@])', 'aloneMethod(@X@)', 'a.concat(...@S@)']
+    const reps = G.SCHEMAS.filter((x) => REP.includes(x.tpl))
+    for (const outer of reps) {
+      for (const oslot of outer.slots) {
+        for (const mid of reps) {
+          for (const mslot of mid.slots) {
+            stats.states++; stats.transitions++
+            for (const inn of inner) {
+              stats.states++; stats.transitions++
+              const innerText = '(' + G.fill(inn.tpl, innerDefaults) + ')'
+              const mpick = {}
+              for (const s2 of mid.slots) mpick[s2] = s2 === mslot ? (s2 === 'S' ? '[' + innerText + ']' : innerText) : (s2 === 'X' ? 'b' : s2 === 'Y' ? 'f()' : s2 === 'S' ? 'arr' : 'a')
+              const midText = '(' + G.fill(mid.tpl, mpick) + ')'
+              const pick = { op: outer.tpl, opkind: outer.kind + '<' + mid.tpl + '<' + inn.tpl }
+              for (const s3 of outer.slots) pick[s3] = s3 === oslot ? (s3 === 'S' ? '[' + midText + ']' : midText) : (s3 === 'X' ? 'a' : s3 === 'Y' ? 'g(2)' : s3 === 'S' ? 'arr' : 'b')
+              leaves.push(mkLeaf('C', pick))
+            }
+          }
+        }
+      }
+    }
+  }
   return { leaves, stats }
 }
 
